@@ -244,6 +244,49 @@ func zzC15_pathlimit() {
 	}
 }
 
+// multi-value string getter with more values than its initial buffer (Queries retries with a bigger slice)
+func zzC15_queries() {
+	n := symChoose("n", symParam("maxqueries", 6)+1)
+	opts := make(Options, 0, n+2)
+	opts = opts.Add(Option{ID: URIPath, Value: []byte("p")})
+	var want []byte
+	for i := 0; i < n; i++ {
+		v := symU8("q")
+		want = append(want, v)
+		opts = opts.Add(Option{ID: URIQuery, Value: []byte{v}})
+	}
+	opts = opts.Add(Option{ID: Accept, Value: []byte{1}})
+	q, err := opts.Queries()
+	symObserve("n", len(q))
+	if n == 0 {
+		symCover("none")
+		symAssert(err != nil || len(q) == 0, "no query options: nothing returned")
+		return
+	}
+	symCover("some")
+	if n > 4 {
+		symCover("more-than-initial-buffer")
+	}
+	symAssert(err == nil, "Queries succeeds for any number of query options")
+	symAssert(len(q) == n, "Queries returns every query option")
+	if len(q) == n {
+		same := true
+		for i := 0; i < n; i++ {
+			if len(q[i]) != 1 || q[i][0] != want[i] {
+				same = false
+			}
+		}
+		symAssert(same, "Queries returns the values in insertion order")
+	}
+	strs := make([]string, 2)
+	m, serr := opts.GetStrings(URIQuery, strs)
+	if n > 2 {
+		symAssert(errors.Is(serr, ErrTooSmall) && m == n, "GetStrings with a too-small destination reports the needed size")
+	} else {
+		symAssert(serr == nil && m == n, "GetStrings returns all values when they fit")
+	}
+}
+
 func zzC15_selftest() {
 	opts, _ := zzState(2, 0)
 	id := symU16("opid")
